@@ -224,6 +224,37 @@ def user_config_of(case):
     return u
 
 
+def materialize(tb, case):
+    """The two dictionaries handed to the implementation.  `alias` entries make them share objects with each
+    other or with the live built-in tables (call after Tables.install):
+      ['user-section-is-builtin', sec]        user[sec] IS DEFAULT_CONFIG[sec]
+      ['global-is-syntax-config']             global_config IS SYNTAX_CONFIG
+      ['user-section-is-global-section', name, sec]   one dict object in both
+      ['user-is-global-layer', name]          global_config[name] IS user_config"""
+    user = user_config_of(case)
+    glob_ = copy.deepcopy(case['global'])
+    for a in case.get('alias') or []:
+        if a[0] == 'user-section-is-builtin':
+            user[a[1]] = tb.cfg.DEFAULT_CONFIG[a[1]]
+        elif a[0] == 'global-is-syntax-config':
+            glob_ = tb.cfg.SYNTAX_CONFIG
+        elif a[0] == 'user-section-is-global-section':
+            glob_.setdefault(a[1], {})[a[2]] = user.setdefault(a[2], {})
+        elif a[0] == 'user-is-global-layer':
+            glob_[a[1]] = user
+    return user, glob_
+
+
+def effective_case(case, user0, glob0):
+    """The case with the aliases written out as plain data (for the model wires)."""
+    if not case.get('alias'):
+        return case
+    eff = dict(case)
+    eff['user'] = {k: v for k, v in user0.items() if isinstance(v, dict)}
+    eff['global'] = {k: v for k, v in glob0.items() if isinstance(v, dict)}
+    return eff
+
+
 def resolved_names(tb, case):
     """Documented resolution of type and syntax: 'markup'; the type's default syntax, else 'html'."""
     ty = case['type'] if case['type'] is not None else 'markup'
@@ -272,14 +303,14 @@ def observe(tb, case, with_expand=True):
     """Run the case on the implementation and judge it with the oracle.
     -> dict(failures=[(clause, text)], obs={type, syntax, sections}, expected=..., fatal=bool)"""
     cfg = tb.cfg
-    res = {'failures': [], 'obs': None, 'expected': None, 'fatal': False, 'patterns': {}, 'expand': None}
+    res = {'failures': [], 'obs': None, 'expected': None, 'fatal': False, 'patterns': {}, 'expand': None, 'eff': case}
     fails = res['failures']
     patches = [tuple(p) for p in case['patches']]
-    user = user_config_of(case)
-    glob_ = copy.deepcopy(case['global'])
-    user0, glob0 = copy.deepcopy(user), copy.deepcopy(glob_)
     ty, syn = resolved_names(tb, case)
     installed = tb.install(patches)
+    user, glob_ = materialize(tb, case)
+    user0, glob0 = copy.deepcopy(user), copy.deepcopy(glob_)
+    res['eff'] = effective_case(case, user0, glob0)
     try:
         # the layers as they are BEFORE the call (reference copies, never handed to the implementation)
         rd, rs = tb.reference(patches)
@@ -363,17 +394,16 @@ def outcome(f):
 def observe_expand(tb, case, ty, syn, expected, installed, patches, fails):
     emmet = _emmet()
     abbr = case['abbr']
-    user = user_config_of(case)
-    glob_ = copy.deepcopy(case['global'])
+    user, glob_ = materialize(tb, case)
     user0, glob0 = copy.deepcopy(user), copy.deepcopy(glob_)
     out = outcome(lambda: emmet.expand(abbr, user, glob_))
     m = tb.modified(installed, patches)
     if m:
         fails.append(('purity', 'expand(%r, ...) modified the built-in table %s' % (abbr, m)))
-    after = dict(user)
-    if 'text' not in user0 and after.get('text', 0) is None:
-        del after['text']           # markup.parse's save/restore of the text slot: C08, not merging
-    if strict(after) != strict(user0):
+    if 'text' not in user0 and user.get('text', 0) is None:
+        del user['text']            # markup.parse's save/restore of the text slot: C08, not merging (removed from
+        #                             our own dict object, so that views of it through aliases agree as well)
+    if strict(user) != strict(user0):
         fails.append(('purity', 'expand(%r, ...) modified the caller\'s config: %r -> %r' % (abbr, user0, user)))
     if strict(glob_) != strict(glob0):
         fails.append(('purity', 'expand(%r, ...) modified the caller\'s global config: %r -> %r' % (abbr, glob0, glob_)))
@@ -507,6 +537,32 @@ def gen_natural(tb):
                             glob_.setdefault(ty if li == 3 else syn, {}).setdefault(sec, {}).update(d)
                 c = mk_case('natural', ty, syn, user, glob_, [], bits=[int(b) for b in on])
                 c['class'] = cls
+                cases.append(c)
+    return cases
+
+
+def gen_aliased(tb):
+    """Caller dictionaries that share objects with each other or with the live built-in tables."""
+    cases = []
+    for ty in tb.base['SYNTAXES']:
+        syns = [tb.base['DEFAULT_SYNTAXES'].get(ty), tb.base['SYNTAXES'][ty][-1], 'zzz', ty] + \
+               [s for s in tb.base['SYNTAXES'][ty] if s in tb.base['SYNTAX_CONFIG']][:2]
+        vis_abbr = {sec: VISIBLE[(ty, sec)][1] for sec in SECTIONS if (ty, sec) in VISIBLE}
+        for syn in dict.fromkeys(syns):
+            glob_ = {ty: {sec: {'zz.al.t': MARKERS[3]} for sec in SECTIONS},
+                     syn: {sec: {'zz.al.s': MARKERS[4], 'zz.al.t': MARKERS[4]} for sec in SECTIONS}}
+            user = {sec: {'zz.al.u': MARKERS[5], 'zz.al.s': MARKERS[5]} for sec in SECTIONS}
+            variants = [[['global-is-syntax-config']], [['user-is-global-layer', ty]], [['user-is-global-layer', syn]],
+                        [['user-is-global-layer', 'zzother']]]
+            for sec in SECTIONS:
+                variants += [[['user-section-is-builtin', sec]],
+                             [['user-section-is-global-section', ty, sec]],
+                             [['user-section-is-global-section', syn, sec]],
+                             [['user-section-is-builtin', sec], ['global-is-syntax-config']]]
+            for al in variants:
+                c = mk_case('aliased', ty, syn, user, {} if al[-1][0] == 'global-is-syntax-config' else glob_, [], alias=al,
+                            abbr=vis_abbr.get('options'))
+                c['class'] = class_of(tb, ty, syn)
                 cases.append(c)
     return cases
 
@@ -685,15 +741,15 @@ def summarize(tb, case, res, rng, with_model):
             sm['model'] = ('cell', wire_cell(case), [sec], i['sections'][sec] if i else None)
         else:
             secs = [case['sec']] if case.get('sec') else list(SECTIONS)
-            w = wire_init(tb, case, ids, secs)
+            w = wire_init(tb, res['eff'], ids, secs)
             sm['model'] = ('init', w, secs, impl_ids(ids, res['obs'], secs))
-        if kind in ('natural', 'random', 'corpus') and res['expected']:
+        if kind in ('natural', 'random', 'corpus', 'aliased') and res['expected']:
             # the SPEC's own answer (spec_lookup) for sampled keys, against the oracle
             for sec in SECTIONS:
                 ks = sorted(res['expected'][sec]) + ['zz.undefined']
                 for key in rng.sample(ks, min(2, len(ks))):
                     e = res['expected'][sec].get(key)
-                    sm['spec'].append((sec, key, wire_spec(tb, case, ids, ty, syn, sec, key),
+                    sm['spec'].append((sec, key, wire_spec(tb, res['eff'], ids, ty, syn, sec, key),
                                        [0] if e is None else [1, ids.id_of(e[0])]))
     return sm
 
@@ -838,6 +894,7 @@ def run(ctx):
     table = gen_table(tb)
     natural = gen_natural(tb)
     corpus = load_corpus()
+    aliased = gen_aliased(tb)
     rnd = gen_random(ctx, tb, n_rand)
     ctx.cov['rule'] = (
         'EXHAUSTIVE table: both abbreviation types x every syntax name (known: SYNTAXES[type]; cross: syntaxes of the other '
@@ -847,7 +904,9 @@ def run(ctx):
         'syntax-defaults layer cannot exist: 2^5), once with a fresh probe key and once with a key whose effect is visible in '
         'expand() output %r; observed on Config(user, global) (all three sections, whole dicts) and through '
         'emmet.expand(abbr, config, global_config).  Natural table: unpatched tables, 2^3 subsets of caller layers redefining '
-        'real built-in keys of every built-in definedness pattern.  Plus corpus and %d random configurations (absent/unknown '
+        'real built-in keys of every built-in definedness pattern.  Aliased configurations: the caller\'s dictionaries share objects '
+        'with each other or ARE the live built-in tables (user section is DEFAULT_CONFIG[section], global config is '
+        'SYNTAX_CONFIG, the user config is also a global layer).  Plus corpus and %d random configurations (absent/unknown '
         'type, unrelated names and sections, random patches).  A case is non-trivial when at least two layers define a judged '
         'key (a real precedence decision); distinct by (type, syntax, section, key, subset) resp. by configuration.'
         % (sorted(k for k in tb.base['SYNTAX_CONFIG'] if not any(k in v for v in tb.base['SYNTAXES'].values())),
@@ -856,6 +915,7 @@ def run(ctx):
         run_cases(ctx, tb, model, corpus, 'corpus', pool)
         run_cases(ctx, tb, model, table, 'table', pool)
         run_cases(ctx, tb, model, natural, 'natural', pool)
+        run_cases(ctx, tb, model, aliased, 'aliased', pool)
         run_cases(ctx, tb, model, rnd, 'random', pool)
     if tb.modified_strict():
         ctx.property_failure('purity:tables-after-run', 'purity: the built-in tables differ (type-strict comparison) after the run',
@@ -865,7 +925,7 @@ def run(ctx):
         'types': list(tb.base['SYNTAXES']),
         'syntax_names': {ty: [s for s, _ in names_for(tb, ty)] for ty in tb.base['SYNTAXES']},
         'sections': list(SECTIONS), 'layer_subsets': 64, 'probes_per_cell': 2, 'table_cells': len(table),
-        'natural_cells': len(natural)}
+        'natural_cells': len(natural), 'aliased_cases': len(aliased)}
     ctx.assumptions += [
         'values of options/snippets/variables are abstracted to ids in the model comparison (the property is about WHICH '
         'layer wins); the oracle compares the implementation\'s values themselves (identity or type-strict structure)',
